@@ -98,6 +98,10 @@ type ioDelegate struct {
 	// here: the spooled part, what was in hand, then the rest of the input.
 	in    io.Reader
 	spool *os.File
+	// The digest the entry being written is keyed with, and the digest of
+	// what the command has read of the input so far.
+	rsum []byte
+	read hash.Hash
 }
 
 func newIODelegate(inpath, outpath string) (*ioDelegate, error) {
@@ -123,7 +127,11 @@ func (d *ioDelegate) Read(p []byte) (int, error) {
 	if d.in != nil {
 		return d.in.Read(p)
 	}
-	return d.infile.Read(p)
+	n, err := d.infile.Read(p)
+	if d.read != nil {
+		d.read.Write(p[:n])
+	}
+	return n, err
 }
 
 func (d *ioDelegate) Write(p []byte) (int, error) {
@@ -212,6 +220,9 @@ func (d *ioDelegate) TryCache(h hash.Hash, data []byte) (bool, error) {
 			return false, nil
 		}
 		d.cache = f
+		// The input was hashed in one pass and is read by the command in
+		// another: remember what it hashed to.
+		d.rsum, d.read = rsum, newHash()
 		return false, nil
 	}
 
@@ -240,6 +251,12 @@ func (d *ioDelegate) Close() error {
 
 	defer d.infile.Close()
 	defer d.outfile.Close()
+
+	if d.cache != nil && d.read != nil && !bytes.Equal(d.read.Sum(nil), d.rsum) {
+		// What the command read is not what the entry is keyed with: the
+		// input file was changed while the command was running.
+		d.dropCache()
+	}
 
 	if d.cache != nil {
 		// Finalising is left to commitCaches: whether the entry may be kept
